@@ -729,6 +729,11 @@ func e2eStream(o *Out, rng *rand.Rand, n int) {
 				if rng.Intn(6) == 0 {
 					uri += "&ip=" + []string{"198.51.100.4", "2001:db8::99", "garbage", "::ffff:198.51.100.5"}[rng.Intn(4)]
 				}
+				if rng.Intn(6) == 0 {
+					// the other spellings an address can be supplied under (honoured only with allow_ip_spoofing, and then
+					// only as THE address of the one peer the request announces)
+					uri += []string{"&ipv6=2001:db8::10", "&ipv4=198.51.100.77", "&ipv6=2001:db8::", "&ipv4=203.0.113.5&ipv6=2001:db8::11", "&ipv6=garbage", "&ipv6=198.51.100.78"}[rng.Intn(6)]
+				}
 				if rng.Intn(8) == 0 {
 					uri = "/a/k" + fmt.Sprint(rng.Intn(9)) + uri
 				}
